@@ -2,7 +2,7 @@
 
 use crate::exec::{clauses, fail, Applied, Exec, Failure, Op, OpRet};
 use crate::model::RefGraph;
-use crate::obs::{guarded, Caught};
+use crate::obs::{guarded, observe, Caught};
 use crate::plan::{Loss, RFault, Step, WFault};
 use crate::rng::Rng;
 use crate::view::{path_name, LinkKind, OnDisk, Origin, SavedState};
@@ -24,7 +24,7 @@ impl<const N: usize> Exec<N> {
         if self.view.live().len() >= 2 {
             let target = match s {
                 Step::Add { i, .. } | Step::Bind { i, .. } | Step::Put { i, .. } | Step::PutRaw { i, .. } | Step::Data { i, .. } | Step::NextId { i, .. }
-                | Step::Drain { i, .. } | Step::Script { i, .. } | Step::Save { i, .. } | Step::Oob { i, .. } => *i + 1,
+                | Step::Drain { i, .. } | Step::Script { i, .. } | Step::Script2 { i, .. } | Step::Save { i, .. } | Step::Oob { i, .. } | Step::Storm { i, .. } => *i + 1,
                 Step::Clone { src, .. } | Step::Slice { src, .. } => *src + 1,
                 Step::Merge { dst, .. } => *dst + 1,
                 _ => 0,
@@ -178,6 +178,161 @@ impl<const N: usize> Exec<N> {
                 Ok(Applied::Done)
             }
             Step::Clone { src, dst, link } => self.do_clone(*src, *dst, *link, s),
+            Step::Storm { i, v, a, t1, t2, times } => {
+                let (Some(v), Some(t1), Some(t2)) = (self.id(*v), self.id(*t1), self.id(*t2)) else {
+                    return Ok(Applied::Skipped);
+                };
+                if !self.targetable(*i) || *times < 3 || v == t1 || v == t2 || t1 == t2 {
+                    return Ok(Applied::Skipped);
+                }
+                {
+                    // in contract: dry run of the first two binds on the model (later ones change no group)
+                    let inst = self.view.insts[*i].as_ref().unwrap();
+                    if inst.poisoned || inst.m.adoptive {
+                        return Ok(Applied::Skipped);
+                    }
+                    let mut mm = inst.m.clone();
+                    if !mm.can_bind(v, t1, a) {
+                        return Ok(Applied::Skipped);
+                    }
+                    mm.bind(v, t1, a);
+                    if !mm.can_bind(v, t2, a) {
+                        return Ok(Applied::Skipped);
+                    }
+                }
+                self.view.see_label(a);
+                // the first two go through all clauses, the rest are raw, the last one is judged again
+                self.op_with_followers(*i, &Op::Bind(v, t1, a.clone()))?;
+                self.op_with_followers(*i, &Op::Bind(v, t2, a.clone()))?;
+                let mut insts = vec![*i];
+                insts.extend(self.view.followers(*i).into_iter().map(|(f, _)| f));
+                let la = a.to_label();
+                for inst in insts {
+                    let g = self.gs[inst].as_mut().unwrap();
+                    // the lookup right before the storm (it answers t2) and the one right after it, with
+                    // no other lookup on this graph in between; the last raw bind goes to t1
+                    let r = guarded(|| {
+                        let before = g.kid(v, la);
+                        for k in 2..*times {
+                            g.bind(v, if k + 1 == *times || k % 2 == 0 { t1 } else { t2 }, la);
+                        }
+                        (before, g.kid(v, la))
+                    });
+                    match r {
+                        Err(c) => {
+                            return fail("panic.in-contract-call", clauses::PANIC_GC, format!("a storm of {times} re-binds of ν{v} .{a:?} panicked: {c:?}"));
+                        }
+                        Ok((before, after)) => {
+                            if before != Some(t2) || after != Some(t1) {
+                                return fail(
+                                    "kid.differs-from-last-bind",
+                                    clauses::C03,
+                                    format!("kid(ν{v}, {a:?}) was {before:?} before and is {after:?} after {} re-binds that ended on ν{t1} (the one before them was to ν{t2})", times - 2),
+                                );
+                            }
+                        }
+                    }
+                }
+                // the closing bind goes to t1: whatever was looked up after the second bind (t2) is stale
+                let last = t1;
+                self.stats.bump("probe.rebind_storm");
+                self.stats.add("storm.raw_binds", (*times as u64).saturating_sub(3));
+                // make sure the closing operation is swept in full, whatever the observation rate
+                let keep = self.view.cfg.sweep_every;
+                self.view.cfg.sweep_every = 1;
+                let r = self.op_with_followers(*i, &Op::Bind(v, last, a.clone()));
+                self.view.cfg.sweep_every = keep;
+                r?;
+                self.hash_step(s, "");
+                Ok(Applied::Done)
+            }
+            Step::SliceStorm { src, v, times } => {
+                let Some(v) = self.id(*v) else { return Ok(Applied::Skipped) };
+                if !self.usable(*src) || self.view.insts[*src].as_ref().unwrap().poisoned {
+                    return Ok(Applied::Skipped);
+                }
+                let m = &self.view.insts[*src].as_ref().unwrap().m;
+                if !m.closure(v, &|_, _, _| true).is_some_and(|c| c.len() <= 14) {
+                    return Ok(Applied::Skipped);
+                }
+                let g = self.gs[*src].as_ref().unwrap();
+                let r = guarded(|| {
+                    for _ in 0..*times {
+                        drop(g.slice(v));
+                    }
+                });
+                if let Err(c) = r {
+                    return fail("panic.in-contract-call", clauses::PANIC_SLICE, format!("{times} slices of ν{v} in a row panicked: {c:?}"));
+                }
+                self.stats.bump("probe.slice_storm");
+                self.stats.add("storm.raw_slices", *times as u64);
+                self.check_untouched(&[])?;
+                self.hash_step(s, "");
+                Ok(Applied::Done)
+            }
+            Step::CloneFrom { src, dst } => {
+                // the destination exists and was used; afterwards it is the source's twin in everything
+                if src == dst || !self.usable(*src) || !self.targetable(*dst) || !self.view.followers(*dst).is_empty() {
+                    return Ok(Applied::Skipped);
+                }
+                let (si, di) = (self.view.insts[*src].as_ref().unwrap(), self.view.insts[*dst].as_ref().unwrap());
+                if si.poisoned || di.poisoned || si.m.cap != di.m.cap {
+                    return Ok(Applied::Skipped);
+                }
+                let mut d = self.gs[*dst].take().unwrap();
+                let sg = self.gs[*src].as_ref().unwrap();
+                let r = guarded(|| d.clone_from(sg));
+                self.gs[*dst] = Some(d);
+                if let Err(c) = r {
+                    return fail("panic.in-contract-call", clauses::PANIC_CLONE, format!("clone_from() panicked: {c:?}"));
+                }
+                self.stats.bump("probe.clone_from_into_used_graph");
+                let si = self.view.insts[*src].as_ref().unwrap();
+                let (m, fam, readd, merged, cl, sl, sc, log) =
+                    (si.m.clone(), si.family, si.readd_seen, si.merged, si.crossed_load, si.suspect_load, si.suspect_clone, si.oplog.clone());
+                let probes = self.view.probe_labels();
+                let obs = match observe(self.gs[*dst].as_ref().unwrap(), &probes, false) {
+                    Ok(o) => o,
+                    Err(c) => return fail("query.panic", clauses::PANIC_CLONE, format!("{c:?}")),
+                };
+                {
+                    let di = self.view.insts[*dst].as_mut().unwrap();
+                    di.m = m;
+                    di.family = fam;
+                    di.readd_seen = readd;
+                    di.merged = merged;
+                    di.crossed_load = cl;
+                    di.crossed_clone = true;
+                    di.suspect_load = sl;
+                    di.suspect_clone = sc;
+                    di.oplog = log;
+                    di.last_obs = obs;
+                    di.version += 1;
+                    di.age += 1;
+                    di.origin = Origin::Cloned;
+                }
+                let (a, b) = (self.deep(*src)?, self.deep(*dst)?);
+                if let Some(d) = a.diff(&b) {
+                    let owners: clauses::Owners = match a.diff_kind(&b) {
+                        Some("keys") => &["C10", "C01"],
+                        Some("edges" | "data") => &["C10", "C03"],
+                        _ => clauses::C10,
+                    };
+                    return fail("clone.sweep-differs", owners, format!("right after clone_from(): {d}"));
+                }
+                {
+                    let x = guarded(|| self.gs[*src].as_ref().unwrap().verif_snapshot()).ok();
+                    let y = guarded(|| self.gs[*dst].as_ref().unwrap().verif_snapshot()).ok();
+                    if x.is_none() || x != y {
+                        self.view.insts[*dst].as_mut().unwrap().suspect_clone = true;
+                        self.stats.bump("probe.clone_snapshot_differs");
+                    }
+                }
+                self.refresh_hints(*dst);
+                self.check_untouched(&[*dst])?;
+                self.hash_step(s, "");
+                Ok(Applied::Done)
+            }
             Step::Unlink { i } => {
                 if !self.usable(*i) {
                     return Ok(Applied::Skipped);
@@ -211,6 +366,7 @@ impl<const N: usize> Exec<N> {
             Step::Slice { src, v, pred, seeds, keep } => self.do_slice(*src, *v, *pred, seeds, *keep, s),
             Step::Merge { dst, src, left, right } => self.do_merge(*dst, *src, *left, *right, s),
             Step::Script { i, cmds, style, var, name } => self.do_script(*i, cmds, *style, *var, name, s),
+            Step::Script2 { i, p, l1, l2, a, b } => self.do_script2(*i, *p, l1, l2, a, b, s),
             Step::Damage { path, kind } => self.do_damage(*path, *kind),
             Step::Oob { i, call } => self.do_oob(*i, call),
         }
